@@ -130,10 +130,13 @@ func (h *hgen) raw() {
 	if g.Chance(0.08) {
 		method = g.Pick("GET", "DELETE", "PATCH", "POST", "PUT")
 	}
+	// body: content, then how it is framed on the wire and which unrelated headers come along
+	// (neither may matter to the answer)
 	body := "t"
-	if g.Chance(0.2) {
-		body = g.Pick("f", "b")
+	if g.Chance(0.25) {
+		body = g.Pick("f", "b", "e")
 	}
+	body += g.Pick("l", "c") + g.Pick("0", "0", "1", "2", "3")
 	num := "0"
 	if g.Chance(0.3) {
 		num = g.Pick("1", "00", "x", "-1", "4294967296", "7")
